@@ -638,7 +638,11 @@ func main() {
 			fmt.Printf("VIOLATION property=%s replay=%s\n", prop, rp)
 			fmt.Printf("  [%s/%s case %s] %s: %s\n", v.Workload, v.Flavour, v.Case, v.Class, firstLines(v.Detail, 6))
 		}
-		fmt.Printf("%s %s: %d violation(s) in %d evaluations (%.1fs)\n", prop, tier, len(unknown), evals, wall)
+		byClass := map[string]int{}
+		for _, v := range unknown {
+			byClass[v.Class]++
+		}
+		fmt.Printf("%s %s: %d violation(s) in %d evaluations (%.1fs); by class: %v\n", prop, tier, len(unknown), evals, wall, byClass)
 		os.RemoveAll(tmp)
 		os.Exit(1)
 	}
